@@ -40,9 +40,29 @@ RULES = {
     'R-ALL': ('r_misc', 'rule_ALL', 'default'),
     'R-SIG': ('r_misc', 'rule_SIG', 'default'),
     'R-PRE': ('r_misc', 'rule_PRE', 'default'),
+    'R-GUSE': ('r_generic', 'rule_GUSE', 'default'),
+    'R-WRAP': ('r_generic', 'rule_WRAP', 'default'),
+    'R-RNG': ('r_generic', 'rule_RNG', 'default'),
+    'R-REMC': ('r_generic', 'rule_REMC', 'default'),
 }
 
 _cache = {}
+
+
+def _guarded(rule, thunk):
+    """A rule that meets code it was not written for (and raises) has no verdict: the failure is recorded as a note on every
+    property the rule serves and printed on stderr; it is neither a pass of that rule nor an alarm."""
+    try:
+        return thunk()
+    except Exception as e:   # noqa: BLE001 -- any analysis failure
+        import sys
+        import traceback
+        from .report import Inst
+        tb = traceback.format_exc().strip().splitlines()
+        sys.stderr.write('qlint: rule %s failed on this tree (%s: %s) -- no verdict from it\n' % (rule, type(e).__name__, e))
+        sys.stderr.write('\n'.join(tb[-6:]) + '\n')
+        return [Inst(rule, '%s|analysis failed' % rule, 'note', '', 'the rule raised %s: %s (%s): not decided on this tree' % (type(e).__name__, e, tb[-3].strip() if len(tb) >= 3 else ''),
+                     sorted(PROPERTIES), nontrivial=False)]
 
 
 def run_rule(rule, facts, tier):
@@ -54,7 +74,7 @@ def run_rule(rule, facts, tier):
     mod, fn, needs = RULES[rule]
     m = importlib.import_module('qlint.' + mod)
     f = getattr(m, fn)
-    res = f(facts['default']) if needs == 'default' else f(facts)
+    res = _guarded(rule, lambda: f(facts['default']) if needs == 'default' else f(facts))
     cache[rule] = res
     return res
 
@@ -69,7 +89,7 @@ def run_rule_config(rule, facts, cfg):
     if rule in cache:
         return cache[rule]
     m = importlib.import_module('qlint.' + mod)
-    res = getattr(m, fn)(facts[cfg])
+    res = _guarded(rule, lambda: getattr(m, fn)(facts[cfg]))
     cache[rule] = res
     return res
 
@@ -140,6 +160,10 @@ TEXT = {
     'R-ALL': 'R-ALL: an iteration in exact chunks (chunks_exact, array_chunks, ..) consumes its remainder or runs over a fixed array whose length is a multiple of the chunk size: no element is skipped.',
     'R-SIG': 'R-SIG: the value the constructor stores in `sigma` (bound of the symbol guard) derives from Iterator::max over a plain element iterator of the input, not from another reduction.',
     'R-PRE': 'R-PRE: where a crate function asserts `p <= C` on entry and a call site guards the same argument by a constant, the two constants agree (caller/callee belief contradiction).',
+    'R-GUSE': 'R-GUSE: in every checked API method of the contract table (private helpers inlined) no bounds-checked indexing whose index depends on a contract argument happens before some test of that argument (guard before use).',
+    'R-WRAP': 'R-WRAP: no wrapping_/overflowing_/unchecked_ shift by a computed amount that is not bounded below the word size on that path.',
+    'R-RNG': 'R-RNG: no exclusive range with constant bounds ends at the maximum of an integer type.',
+    'R-REMC': 'R-REMC: `len & (C-1)` is never compared by order with a position nor passed as a count: for a full last chunk it is 0.',
     'R-OBJ': 'R-OBJ: a function handed a component by reference (select<BIT>(.., inventories: &Inventories<BIT>)) never reads a field of self of the same type, in its body or its inlined private helpers: the work is done on the object it was given.',
     'R-TAB': 'R-TAB: the compiler-evaluated K_SELECT_IN_BYTE is compared with its definition for all 2048 entries (exhaustive).',
 }
@@ -161,56 +185,56 @@ EXPL = ('Static analysis of the type-checked program (MIR, ADT/impl metadata, ev
         'configurations. Decides the structural clauses listed under `rule` -- necessary conditions of the property that are visible in the shape '
         'of the code on every path -- and NOT the input/output behaviour, which quantifies over runtime values. ')
 
-_p('C01', ['R-G', 'R-SIB', 'R-E', 'R-O', 'R-W', 'R-TW', 'R-DEL', 'R-LAY', 'R-BITS', 'R-SPLIT', 'R-SMP', 'R-CMP', 'R-SELP', 'R-SIG', 'R-PRE'], 'other',
+_p('C01', ['R-G', 'R-SIB', 'R-E', 'R-O', 'R-W', 'R-TW', 'R-DEL', 'R-LAY', 'R-BITS', 'R-SPLIT', 'R-SMP', 'R-CMP', 'R-SELP', 'R-SIG', 'R-PRE', 'R-GUSE', 'R-REMC'], 'other',
    EXPL + 'C01: validation of QWaveletTree get/rank/rank_prefetch/select, empty/default state, argument arithmetic, symbol width in builder/partition/readers, construction paths.',
    'that ranks/offsets compose to the right count and position across levels; sigma / n_levels arithmetic; that stable_partition_of_4 is a stable permutation')
-_p('C02', ['R-G', 'R-SIB', 'R-E', 'R-O', 'R-W', 'R-LVL', 'R-TW', 'R-DEL', 'R-LAY', 'R-BITS', 'R-SPLIT', 'R-SMP', 'R-SELP', 'R-SIG', 'R-PRE'], 'other',
+_p('C02', ['R-G', 'R-SIB', 'R-E', 'R-O', 'R-W', 'R-LVL', 'R-TW', 'R-DEL', 'R-LAY', 'R-BITS', 'R-SPLIT', 'R-SMP', 'R-SELP', 'R-SIG', 'R-PRE', 'R-GUSE'], 'other',
    EXPL + 'C02: validity test (symbol has a code) on rank/rank_prefetch/select, its width, empty state, level-write guard and provenance of code lengths, construction paths.',
    'correctness of craft_wm_codes (prefix-freeness, ordering), independence from hash-map tie order, decode-table search, code lengths beyond 16 levels')
-_p('C03', ['R-G', 'R-SIB', 'R-E', 'R-O', 'R-W', 'R-LVL', 'R-TW', 'R-DEL', 'R-LAY', 'R-BITS', 'R-SPLIT', 'R-HINT', 'R-SELP', 'R-SIG'], 'other',
+_p('C03', ['R-G', 'R-SIB', 'R-E', 'R-O', 'R-W', 'R-LVL', 'R-TW', 'R-DEL', 'R-LAY', 'R-BITS', 'R-SPLIT', 'R-HINT', 'R-SELP', 'R-SIG', 'R-GUSE'], 'other',
    EXPL + 'C03: validation of WT/HWT get/rank/select in both specialisations, symbol carried in the element type, empty state, level-write guard, construction paths.',
    'wavelet-matrix arithmetic, binwt::craft_wm_codes table bounds for degenerate alphabets (loop-carried indices), tie orders')
-_p('C04', ['R-G', 'R-E', 'R-O', 'R-UNS', 'R-SIB', 'R-LAY', 'R-DA', 'R-DBG', 'R-SMP', 'R-CMP', 'R-SELP', 'R-PF', 'R-INV', 'R-DAR', 'R-PRE'], 'other',
+_p('C04', ['R-G', 'R-E', 'R-O', 'R-UNS', 'R-SIB', 'R-LAY', 'R-DA', 'R-DBG', 'R-SMP', 'R-CMP', 'R-SELP', 'R-PF', 'R-INV', 'R-DAR', 'R-PRE', 'R-NON', 'R-GUSE', 'R-WRAP', 'R-RNG'], 'other',
    EXPL + 'C04: every unchecked access is behind the documented guard, empty/default states reach no trap, argument arithmetic is bounded, unchecked API is unsafe, '
    'raw views match layouts.',
    'index arithmetic inside search loops (select_block, select*_subblock, block_predecessor, DArray word scan: sentinel invariants over stored data), CPU feature of _popcnt64, allocation failure')
-_p('C05', ['R-G', 'R-SIB', 'R-E', 'R-TW', 'R-LAY', 'R-DEL', 'R-DA', 'R-SPLIT', 'R-SMP', 'R-CMP', 'R-PRE'], 'other',
+_p('C05', ['R-G', 'R-SIB', 'R-E', 'R-TW', 'R-LAY', 'R-DEL', 'R-DA', 'R-SPLIT', 'R-SMP', 'R-CMP', 'R-PRE', 'R-GUSE', 'R-REMC'], 'other',
    EXPL + 'C05: validation of RSQVector get/rank/select/occs/occs_smaller, packed superblock record (writer/reader agreement), sampling constants, twins.',
    'counter contents, the sampled search, in-block select, per-symbol totals being prefix sums')
-_p('C06', ['R-G', 'R-SIB', 'R-E', 'R-TW', 'R-LAY', 'R-DEL', 'R-SPLIT', 'R-CMP', 'R-HINT', 'R-NON'], 'other',
+_p('C06', ['R-G', 'R-SIB', 'R-E', 'R-TW', 'R-LAY', 'R-DEL', 'R-SPLIT', 'R-CMP', 'R-HINT', 'R-NON', 'R-GUSE'], 'other',
    EXPL + 'C06: validation of RSNarrow/RSWide get/rank1/select1/select0, rank0 = i - rank1, empty state, packed counters and hint periods.',
    'counter construction and the hint/linear search')
-_p('C07', ['R-DAR', 'R-G', 'R-E', 'R-TW', 'R-DEL', 'R-LAY', 'R-SPLIT', 'R-NEG', 'R-OBJ'], 'other',
+_p('C07', ['R-DAR', 'R-G', 'R-E', 'R-TW', 'R-DEL', 'R-LAY', 'R-SPLIT', 'R-NEG', 'R-OBJ', 'R-GUSE'], 'other',
    EXPL + 'C07: writer/reader agreement on the shared inventories, the u16 narrowing bound, flush trigger, select guards, default state.',
    'the word scan and sign-encoded pointers')
-_p('C08', ['R-SIB', 'R-NON', 'R-O', 'R-G', 'R-TW', 'R-LAY', 'R-E', 'R-SPLIT', 'R-CMP', 'R-NEG'], 'other',
+_p('C08', ['R-SIB', 'R-NON', 'R-O', 'R-G', 'R-TW', 'R-LAY', 'R-E', 'R-SPLIT', 'R-CMP', 'R-NEG', 'R-GUSE', 'R-WRAP', 'R-REMC', 'R-IT'], 'other',
    EXPL + 'C08: BitVector vs BitVectorMut readers validate identically, cached population count depends on overwritten bits, conversions move every field, get_bits arithmetic.',
    'bit-level effect of set_symbol, word reads and position iterators over arbitrary histories')
 _p('C09', ['R-PF', 'R-EFF', 'R-SIB', 'R-LAY', 'R-BITS'], 'other',
    EXPL + 'C09: rank_prefetch validates like rank and returns exactly rank_unchecked on the untouched arguments; prefetch addresses use wrapping arithmetic and only reach the '
    'intrinsic; positions feed only hints; bodies are feature-independent.',
    'that the estimates stay within the next level where they are re-used as arguments of approx_rank_unchecked / rank_block_unchecked (an invariant over data)')
-_p('C10', ['R-TW', 'R-DA', 'R-DBG', 'R-G', 'R-UNS', 'R-O', 'R-NON', 'R-W'], 'other',
+_p('C10', ['R-TW', 'R-DA', 'R-DBG', 'R-G', 'R-UNS', 'R-O', 'R-NON', 'R-W', 'R-WRAP'], 'other',
    EXPL + 'C10: twin shapes make checked and unchecked values equal by construction; debug assertions equal the documented precondition; build profiles differ only by assertions.',
    'whether the shared unchecked body is itself correct (C01-C08)')
-_p('C11', ['R-SER', 'R-AUTO', 'R-EFF'], 'proof',
+_p('C11', ['R-SER', 'R-AUTO', 'R-EFF', 'R-NON'], 'proof',
    'Proof by construction modulo the trusted derives: obligations = per ADT in the containment closure {impls present, every field serialized, deserialized, compared, cloned, '
    'field types round-trippable}; discharged by reading the MIR of the (derived or hand-written) impl bodies of the current tree. Equal fields => equal value and (queries being pure '
    'functions of the fields, R-EFF) identical answers.',
    'bincode\'s own behaviour on these types, platform usize width',
    trusted_base=['rustc', 'serde_derive (generated code is inspected, its semantics trusted)', 'serde', 'bincode 1.3.3'])
-_p('C12', ['R-IT'], 'other', EXPL + 'C12: cursor discipline of every ExactSizeIterator; WTIterator template facts from which in-order / reverse-order / exact-length follow by induction.',
+_p('C12', ['R-IT', 'R-E', 'R-REMC'], 'other', EXPL + 'C12: cursor discipline of every ExactSizeIterator; WTIterator template facts from which in-order / reverse-order / exact-length follow by induction.',
    'that get_unchecked(k) returns S[k] (C01-C03); BitVectorBitPositionsIter word scanning')
-_p('C13', ['R-MSK', 'R-G', 'R-TW', 'R-DEL', 'R-LAY', 'R-E', 'R-SPLIT'], 'other',
+_p('C13', ['R-MSK', 'R-G', 'R-TW', 'R-DEL', 'R-LAY', 'R-E', 'R-SPLIT', 'R-GUSE', 'R-REMC', 'R-IT'], 'other',
    EXPL + 'C13: two-bit truncation precedes the write, factor-2 agreement of push/len/get, extend pushes every element, get validation.',
    'bit placement inside the line for all 256 positions')
-_p('C14', ['R-LAY', 'R-BOX', 'R-PF'], 'other', EXPL + 'C14: layouts and constants from which the relative overheads are computed and compared with the stated bounds; payload fields have no slack.',
+_p('C14', ['R-LAY', 'R-BOX', 'R-PF', 'R-SIG'], 'other', EXPL + 'C14: layouts and constants from which the relative overheads are computed and compared with the stated bounds; payload fields have no slack.',
    'the level-count formula and allocation totals for all n (loop trip counts)')
-_p('C15', ['R-LVL'], 'other', EXPL + 'C15: levels hold only live codes; optimal lengths used unmodified with the right fragment width.',
+_p('C15', ['R-LVL', 'R-LAY'], 'other', EXPL + 'C15: levels hold only live codes; optimal lengths used unmodified with the right fragment width.',
    'the numeric bounds n(H0+2), n(H0+1): they follow from Huffman optimality (trusted crate minimum_redundancy) given the decided clauses')
 _p('C16', ['R-SPC'], 'other', EXPL + 'C16: every heap-bearing component is accounted; Vec counts capacity; scaled variants divide by 1024^k.',
    'closeness in percent; Huffman table constants')
-_p('C17', ['R-TAB', 'R-W', 'R-ALL'], 'other', EXPL + 'C17: the in-byte select table is checked exhaustively (2048 entries) against its definition; partitions shift in the element type.',
+_p('C17', ['R-TAB', 'R-W', 'R-ALL', 'R-WRAP', 'R-RNG'], 'other', EXPL + 'C17: the in-byte select table is checked exhaustively (2048 entries) against its definition; partitions shift in the element type.',
    'broadword arithmetic of select_in_word(_u128) for all words, popcnt_wide, msb, permutation/stability of partitions, text_remap (numeric facts over all inputs)')
 _p('C18', ['R-AUTO', 'R-EFF', 'R-UNS'], 'proof',
    'Obligations = per field of the containment closure {no interior mutability / raw pointer / shared-ownership type}, per &self query method {no write effect on its call-graph closure}, '
